@@ -85,11 +85,14 @@ def audio_extent(F, S):
     req = "member i is a copy of Slice(indexEntries[i].dataLength) of input i (positioned at its data chunk), not of the rest of the file"
     good = len(copies) == 1
     detail = "%d stream copies" % len(copies)
+    # the readers are the parameter holding std::unique_ptr<FileReader>s (whatever it is called)
+    rdr_param = [("var", p["n"], p["d"]) for p in wa.params if "unique_ptr" in (p.get("ct") or "")]
+    rdr_param = rdr_param[0] if rdr_param else ("?",)
     if good:
         src = c05.resolve(wa.term(copies[0]["args"][0]), defs)
         detail = fmt_term(src)
         good = src[0] == "call" and src[1].endswith("FileReader::Slice") and len(src[3]) == 1 and src[3][0][0] == "mem" and src[3][0][2] == "dataLength" \
-            and "filesToPackReaders" in repr(src[2]) and src[3][0][1][0] == "idx" and src[2][2][2] == src[3][0][1][2] if src[0] == "call" and src[2][0] == "un" else False
+            and c05.mentions_term(src[2], rdr_param) and src[3][0][1][0] == "idx" and src[2][2][2] == src[3][0][1][2] if src[0] == "call" and src[2][0] == "un" else False
     if good:
         out.append(ok("R-COPYEXT", inst, wa.loc(copies[0]["id"]), wa.qn, req, detail))
     else:
@@ -163,7 +166,7 @@ def format_preserved(F, S):
     else:
         out.append(bad("R-SIB", inst, wc.loc(wc.body), wc.qn, req, "other stores into the format block: %s" % ", ".join(fmt_term(wc.term(x[0]["id"])) for x in other) or "no whole copy"))
     rh = F.fn(CLM + "::ReadAllWaveHeaders", nparams=3)
-    rd = [nd for nd in rh.nodes if nd["k"] == "CXXMemberCallExpr" and nd.get("fname") == "Read" and "waveFormats" in repr(rh.term(nd["args"][0]))]
+    rd = [nd for nd in rh.nodes if nd["k"] == "CXXMemberCallExpr" and nd.get("fname") == "Read" and c05.mentions_term(rh.term(nd["args"][0]), [("var", p["n"], p["d"]) for p in rh.params if "WaveFormatEx" in (p.get("ct") or "")][0])]
     st = [nd for nd in rh.nodes if is_store(nd) and rh.term(rh.kids(nd["id"])[0])[0] == "mem" and rh.term(rh.kids(nd["id"])[0])[2] == "cbSize"
           and rh.term(rh.kids(nd["id"])[1]) == ("const", 0)]
     inst = CLM + "::ReadAllWaveHeaders#cbSize-reset"
